@@ -313,6 +313,16 @@ def run_C19():
         if len({str(v) for v in outs.values()}) > 1:
             (p1, r1), (p2, r2) = [(k, v) for k, v in outs.items()][:1] + [(k, v) for k, v in outs.items() if str(v) != str(list(outs.values())[0])][:1]
             bad('sets on different existing paths give different documents in different orders', doc=text, ops=[['set', p, str(10 + paths.index(p))] for p in p1], other_order=list(p2), pq=r1[1] if r1[0] == 'ok' else r1, qp=r2[1] if r2[0] == 'ok' else r2)
+    # ninth round: a fresh scope-prefixed set followed by rm restores the text also when the let layers hold attrpath bindings interleaved with
+    # other bindings or carrying comments (the layer is written back in source order, not in lookup order)
+    for text, sels in [('let\n  x.y = 1;\n  q = 2;\n  x.z = 3;\nin\n{\n  a = q;\n}\n', ['@fresh', '@x.fresh']), ('let\n  x.y = 1; # c\n  q = 2;\nin\n{\n  a = q;\n}\n', ['@fresh', '@x.fresh']),
+                       ('{ pkgs }:\nlet\n  m.a = 1;\n  k = 2;\n  m.b = 3;\nin\nlet\n  z = 1;\nin\n{\n  a = k;\n}\n', ['@fresh', '@@fresh', '@@m.fresh']),
+                       ('let\n  # lead\n  s.a.b = 1;\n  t = 2; # eol\n  s.a.c = 3;\n  s.d = 4;\nin\n{\n  a = t;\n}\n', ['@fresh', '@s.fresh', '@s.a.fresh'])]:
+        for sel in sels:
+            for reparse in (False, True):
+                count('directed-scoped-set-rm'); a = parse(text); r1 = apply(a, ('set', sel, '5'))
+                r2 = apply(parse(r1[1]) if (reparse and r1[0] == 'ok') else a, ('rm', sel))
+                if r1[0] != 'ok' or r2[0] != 'ok' or r2[1] != text: bad('set of a fresh scope-prefixed path then rm does not restore the text', doc=text, ops=[['set', sel, '5'], ['rm', sel]], got=r2[1] if r2[0] == 'ok' else r2)
     for it in range(N):
         text, meta = gen_doc(R, scoped=True, maxlayers=2, layer_refs=0.5)
         if it < 8 * len(DIRECTED_TREE_DOCS): text, meta = DIRECTED_TREE_DOCS[it % len(DIRECTED_TREE_DOCS)], {'shape': 'bare', 'layers': [], 'refs': []}      # deep attrpath families under every law
